@@ -64,6 +64,11 @@ def make_scratch(repo, dest):
                 raise RuntimeError('kani: source file %s missing' % target)
             with open(t, 'a') as fh:
                 fh.write('\n' + open(p).read())
+    # cargo decides staleness by mtime: a copy that preserves old mtimes after a newer (e.g. patched) copy was built
+    # at the same path would silently reuse the stale build, so every copied source file gets a fresh mtime
+    for root, _, files in os.walk(dest):
+        for fn in files:
+            os.utime(os.path.join(root, fn), None)
     os.makedirs(os.path.join(dest, '.cargo'), exist_ok=True)
     open(os.path.join(dest, '.cargo', 'config.toml'), 'w').write('[net]\noffline = true\n')
 
